@@ -146,10 +146,37 @@ def _tensor_case(c):
     return fails, out
 
 
+def _reuse_case(c):
+    """ONE grid object receives a sequence of refinement trees (set_grid); after each the weights must equal those of a fresh object"""
+    from sparseSpACE.Grid import GlobalTrapezoidalGrid
+    a, b = c["a"], c["b"]
+    fails, out = [], []
+    rule = c["rule"]
+
+    def make():
+        if rule[0] == "trap":
+            return GlobalTrapezoidalGrid(np.array([a]), np.array([b]), boundary=rule[1], modified_basis=rule[2])
+        return _hier_grid((rule[0], tuple(rule[1]) if isinstance(rule[1], list) else rule[1]), a, b)[0]
+    key = {"rule": rule[0], "oracle_kind": "object_reuse"}
+    g = make()
+    for step, (pts, lv) in enumerate(c["sequence"]):
+        g.set_grid([list(pts)], [list(lv)])
+        w1 = np.array(g.weights[0], dtype=float)
+        f = make()
+        f.set_grid([list(pts)], [list(lv)])
+        w2 = np.array(f.weights[0], dtype=float)
+        if w1.shape != w2.shape or not np.allclose(w1, w2, rtol=1e-12, atol=1e-14):
+            i = int(np.argmax(np.abs(w1 - w2))) if w1.shape == w2.shape else 0
+            fails.append(fail("reused_object_weights", "rule %r step %d (%d points) after %d earlier grids: weight %d is %r, fresh object %r" % (rule, step, len(pts), step, i, w1[i] if w1.shape == w2.shape else w1.shape, w2[i] if w1.shape == w2.shape else w2.shape), key))
+            break
+        out.append(len(pts))
+    return fails, out
+
+
 def run_case(case):
     c = case["config"]
     kind = c["kind"]
-    fails, out = {"trap": _trap_case, "hier": _hier_case, "tensor": _tensor_case}[kind](c)
+    fails, out = {"trap": _trap_case, "hier": _hier_case, "tensor": _tensor_case, "reuse": _reuse_case}[kind](c)
     return {"failures": fails, "canon": core.config_key(c), "outcome": tuple(out), "nontrivial": True, "evals": max(1, len(out))}
 
 
@@ -165,6 +192,24 @@ def cases(tier):
             out.append({"config": {"kind": "trap", "a": a, "b": b, "split": split, "points": pts, "levels": lv}})
             if split == "dyadic" and (a == 0.0 or len(pts) <= 9):
                 out.append({"config": {"kind": "hier", "a": a, "b": b, "split": split, "points": pts, "levels": lv}})
+    # object reuse: ordered pairs (with repetition) of trees on ONE grid object, incl. complete trees with 17 and 33 points
+    def complete(m, a, b):
+        n = 2 ** m
+        pts = [a + (b - a) * i / n for i in range(n + 1)]
+        lv = [0] * (n + 1)
+        for l in range(1, m + 1):
+            off = 2 ** (m - l)
+            for i in range(off, n, 2 * off):
+                lv[i] = l
+        return [pts, lv]
+    for (a, b) in ((0.0, 1.0), (-1.0, 3.0)):
+        cat = trees.catalan_trees(5, a, b, nmin=5)
+        menu = [complete(2, a, b), complete(4, a, b), complete(5, a, b), list(cat[0]), list(cat[len(cat) // 2]), list(trees.all_trees_depth(4, a, b)[300])]
+        rules = [["trap", True, False], ["trap", False, True]] + [[k[0], list(k[1]) if isinstance(k[1], tuple) else k[1]] for k in HIER]
+        for rule in rules:
+            for t0 in menu:
+                for t1 in menu:
+                    out.append({"config": {"kind": "reuse", "a": a, "b": b, "rule": rule, "sequence": [t0, t1, t0]}})
     T3 = trees.all_trees_depth(3, -1.0, 3.0)
     T3b = trees.all_trees_depth(3, 2.0, 4.0)
     for t0 in T3:
@@ -188,7 +233,8 @@ def main(ctx):
         ctx.add_sample(cs[i])
     ctx.bounds = {"cases": len(cs), "trap_trees": sum(1 for c in cs if c["config"]["kind"] == "trap"),
                   "hier_trees": sum(1 for c in cs if c["config"]["kind"] == "hier"),
-                  "tensor_pairs": sum(1 for c in cs if c["config"]["kind"] == "tensor"), "rules": [str(k) for k in HIER]}
+                  "tensor_pairs": sum(1 for c in cs if c["config"]["kind"] == "tensor"),
+                  "object_reuse_sequences": sum(1 for c in cs if c["config"]["kind"] == "reuse"), "rules": [str(k) for k in HIER]}
     return ctx.finish(
         rule="one case = one refinement tree (all trees with leaves at depth<=m united with all Catalan trees with <=n inner points; "
              "dyadic and 1/3 splits; [0,1] and [-3,6]) or one pair of trees (2D tensor grid on [-1,3]x[2,4]); per case every rule "
